@@ -8,7 +8,7 @@
    (numerator and denominator of every rational identical, not merely ==).
    No proofs in this file. *)
 From Coq Require Import ZArith NArith QArith Qabs List Bool.
-From TP Require Import Model.COM Model.COMCheck Model.PyKernel Gen.com_kernels.
+From TP Require Import Model.COM Model.COMCheck Model.PyKernel Gen.com_kernels Model.COMGen.
 Import ListNotations.
 Open Scope Z_scope.
 
@@ -36,10 +36,7 @@ Definition arr3_of (shape data : list Z) : list (list (list Z)) :=
   map (fun z => map (fun y => map (fun x => pix_of shape data [z; y; x]) (zrange (ix shape 2)))
                     (zrange (ix shape 1))) (zrange (ix shape 0)).
 
-Definition mcol (radius : list Z) (d : nat) : list Z := map (fun p => ix p d) (mask_points radius).
-Definition r2m (radius : list Z) : list Z := map (r_squared_mask radius) (mask_points radius).
-Definition x2m (radius : list Z) (d : nat) : list Z :=
-  map (fun p => Z.of_nat (length radius) * x_squared_mask radius d p) (mask_points radius).
+Definition mcol (radius : list Z) (d : nat) : list Z := col d (mask_points radius).
 
 (* refine_com_arr, engine='numba': dispatch and argument preparation, one feature *)
 Definition run_generated (c : case) : option (res (list (list cell))) :=
